@@ -2,6 +2,7 @@ import Sudachi.Model.Codec
 import Sudachi.Model.CodecBuild
 import Sudachi.Proofs.Codec
 import Sudachi.Proofs.CodecLayout
+import Sudachi.Proofs.CodecFile
 /-!
 # C05 — compile-then-load round trip preserves every dictionary field, deterministically
 
@@ -82,11 +83,16 @@ theorem wordinfo_roundtrip (e : Entry) (wf : e.WF) (rest : Bytes) :
       · simp [h2]
       · simp [h1, h2]
 
-/-- the checked writer accepts every well-formed entry and emits exactly `encWordInfo` -/
-theorem wordinfo_written (e : Entry) (wf : e.WF)
-    (hb : utf8LenStr e.headwordS ≤ 262144 ∧ utf8LenStr e.normS ≤ 262144 ∧ utf8LenStr e.readingS ≤ 262144) :
-    writeWordInfo e = .ok (encWordInfo e) :=
-  writeWordInfo_ok e wf hb
+/-- the checked writer accepts every well-formed entry and emits exactly `encWordInfo`: the byte-size guard of
+`Utf16Writer::write` (256 KiB of UTF-8) cannot fire for a string of at most 32767 UTF-16 units (`utf8LenStr_le`:
+at most three bytes per unit), so well-formedness alone suffices -/
+theorem wordinfo_written (e : Entry) (wf : e.WF) : writeWordInfo e = .ok (encWordInfo e) := by
+  apply writeWordInfo_ok e wf
+  have a := utf8LenStr_le e.headwordS
+  have b := utf8LenStr_le e.normS
+  have c := utf8LenStr_le e.readingS
+  have := wf.hw.2; have := wf.nf.2; have := wf.rd.2
+  omega
 
 /-- a concrete entry (`あ`, reading declared empty) -/
 def emptyReadingEntry : Entry :=
@@ -101,6 +107,19 @@ theorem empty_form_counterexample :
     emptyReadingEntry.readingS = [] ∧
     (parseWordInfo (encWordInfo emptyReadingEntry)).map (·.readingFormA) = some [12354] := by
   decide
+
+/-- F-EMPTY is a property of the FORMAT, not of one line of the writer: for EVERY entry, declaring the reading
+(resp. the normalised form) empty and not declaring it at all (= equal to the headword) produce byte-identical
+records, so no reader can tell them apart; a repair needs a format change (a flag or a sentinel), or the builder
+must refuse an empty declared form. -/
+theorem empty_form_indistinguishable (e : Entry) :
+    encWordInfo { e with reading := some [] } = encWordInfo { e with reading := none } ∧
+    encWordInfo { e with normForm := some [] } = encWordInfo { e with normForm := none } := by
+  have a : ∀ hw : Str, stored [] hw = stored hw hw := by
+    intro hw; unfold stored; split <;> simp
+  constructor
+  · apply encWordInfo_congr <;> first | rfl | exact a e.headwordS
+  · apply encWordInfo_congr <;> first | rfl | exact a e.headwordS
 
 /-- a minimal entry with headword `s` and dictionary-form id `df` -/
 def plainEntry (s : Str) (df : Nat) : Entry :=
@@ -146,14 +165,11 @@ theorem matrix_roundtrip (nl nr : Nat) (lines : List (Int × Int × Int)) (hok :
   have : ¬ (l ≥ nl ∨ r ≥ nr) := by omega
   simp only [this, if_false, hh.2 l r hl hr]
 
-/-- Whole-layout clause, PARTIAL.  Full statement (DESIGN `dict_roundtrip`): `load (compile src) ≃ src` for the
-whole file - header, POS table, matrix, index, word parameters, offsets table, records.  Proved here: the
-lexicon section.  For ANY bytes `pre` in front of it (header + grammar + index, trie blob abstract), any list of
-well-formed entries and a file below 4 GiB, the offsets table written by `LexiconWriter::write`
-(`offset_base = offset + 10·n + 4`) leads `WordInfos::parse_word_info(i)` to exactly the fields of entry `i`.
-Missing: header/POS-table/word-parameter sections and that `Lexicon::parse` computes `lexAt`'s offsets
-(covered by the byte-exact correspondence and the oracle on every run). -/
-theorem dict_roundtrip_partial (pre : Bytes) (es : List Entry) (hwf : ∀ e ∈ es, e.WF)
+/-- Lexicon section alone, for ANY bytes `pre` in front of it (this was `dict_roundtrip_partial`; the whole file is
+`dict_roundtrip` below): any list of well-formed entries and a file below 4 GiB, the offsets table written by
+`LexiconWriter::write` (`offset_base = offset + 10·n + 4`) leads `WordInfos::parse_word_info(i)` to exactly the
+fields of entry `i`. -/
+theorem lexicon_records_roundtrip (pre : Bytes) (es : List Entry) (hwf : ∀ e ∈ es, e.WF)
     (hsize : (pre ++ lexiconBytes es (es.map encWordInfo) pre.length).length < 4294967296)
     (i : Nat) (e : Entry) (hi : es[i]? = some e) :
     (lexAt pre es).parseWordInfo i = .ok
@@ -162,6 +178,190 @@ theorem dict_roundtrip_partial (pre : Bytes) (es : List Entry) (hwf : ∀ e ∈ 
         readingForm := stored e.readingS e.headwordS, aUnitSplit := e.splitsA, bUnitSplit := e.splitsB,
         wordStructure := e.wordStructure, synonymGroupIds := e.synonyms } :=
   parseWordInfo_lexAt pre es hwf hsize i e hi
+
+/-- Header clause: `Header::parse (Header::write_to h ++ rest)` returns the version and the creation time as
+written and the description **up to its first NUL byte** (`nul_terminated_str_from_slice`); for a NUL-free
+description of at most 256 bytes that is the description itself (256 bytes exactly: no terminator is stored and
+none is needed). -/
+theorem header_roundtrip (v t : Nat) (desc rest : Bytes) (hv : IsVersion v) (ht : t < 18446744073709551616)
+    (hd : desc.length ≤ 256) :
+    writeHeader v t desc = .ok (hdrBytes v t desc) ∧ (hdrBytes v t desc).length = 272 ∧
+    parseHeader (hdrBytes v t desc ++ rest) = .ok { version := v, createTime := t, description := desc.takeWhile (· ≠ 0) } ∧
+    ((∀ b ∈ desc, b ≠ 0) → desc.takeWhile (· ≠ 0) = desc) := by
+  have hv64 : v < 18446744073709551616 := by
+    rcases hv with h | h | h | h | h <;> subst h <;> decide
+  exact ⟨writeHeader_ok v t desc hd, hdrBytes_length v t desc hd, parseHeader_hdrBytes v t desc rest hv hv64 ht hd,
+    takeWhile_no_zero desc⟩
+
+/-- the writer refuses a longer description (no silent truncation) -/
+theorem header_too_long (v t : Nat) (desc : Bytes) (hd : desc.length > 256) : writeHeader v t desc = .err "InvalidDataFormat" := by
+  unfold writeHeader; simp only [DESCRIPTION_SIZE, hd, if_true]
+
+set_option maxRecDepth 100000 in
+/-- a description with an embedded NUL is written in full and loaded truncated (outside the property's list of
+declared data; reported as an observation) -/
+theorem header_nul_counterexample :
+    (writeHeader SYSTEM_DICT_VERSION_2 0 [120, 0, 121]).bind parseHeader
+      = .ok { version := SYSTEM_DICT_VERSION_2, createTime := 0, description := [120] } := by
+  decide
+
+/-- Grammar clause, POS table: `pos_list_parser (write_pos_table rows ++ rest) = (rows, rest)` for every list of
+fewer than 65536 rows of six strings of at most 32767 UTF-16 units each (1-byte and 2-byte length prefixes alike). -/
+theorem pos_table_roundtrip (pos : List (List Str)) (startPos : Nat) (h : PosOk (pos.drop startPos)) (rest : Bytes) :
+    writePosTable pos startPos = .ok (posTableBytes (pos.drop startPos)) ∧
+    posListParser (posTableBytes (pos.drop startPos) ++ rest) = some (pos.drop startPos, rest) :=
+  ⟨writePosTable_ok pos startPos h, posListParser_enc _ h rest⟩
+
+/-- **Whole-file clause** (`dict_roundtrip`, full).  For every builder state within the limits of the format
+(`FileOk`, a decidable predicate: description ≤ 256 bytes, `u64` time, `u16` number of POS rows with six strings
+each, strings of scalar values with ≤ 32767 UTF-16 units, keys ≤ 32767 bytes, `i16` matrix sizes with one cell per
+pair, `i16` parameters, `u16` POS ids, `u32` ids, ≤ 127 items per array, ≤ 127 indexed entries per key, trie a
+multiple of four bytes, file < 4 GiB) whose references are valid (`validateEntries`, the compiler's own check),
+system or user dictionary alike:
+
+* `DictBuilder::compile` succeeds and writes `fileBytes c` = header ++ POS table ++ matrix ++ index ++ lexicon;
+* `read_any_dictionary` (and `read_system_dictionary` resp. `read_user_dictionary`) loads these bytes;
+* the header carries the version of the dictionary kind, the creation time and the description (up to a NUL);
+* the grammar carries exactly the POS rows the dictionary adds, the matrix sizes, and EVERY cell of the matrix
+  (`conn_matrix().cost(l, r)` for any contents `v` the matrix bytes hold);
+* the trie region and the word-id table region of the loaded lexicon are the trie blob and the table the builder
+  wrote (`Lexicon::parse` offsets);
+* for EVERY entry `i`: `get_params(i)` is its (left, right, cost) and `parse_word_info(i)` returns its headword,
+  key length, POS id, stored normalised form and reading, dictionary-form id, split units, word structure and
+  synonym groups (`wordinfo_roundtrip` turns the stored forms into the declared ones).
+
+The dictionary-form id is the id as `write_word_info` stores it (`storeDf`, code variant `c.dfFix`): the declared id
+itself for the code as it stands (`storeDf_cur`) and, in both variants, for `*` and every reference of a system
+dictionary (`storeDf_sys`); the repaired writer stores `UN` as `N` (`storeDf_user`). -/
+theorem dict_roundtrip (c : CompileInput) (hok : FileOk c)
+    (hval : validateEntries c.maxLeft c.maxRight c.numSystem c.entries = true) :
+    ∃ ld g,
+      compile c = .ok (fileBytes c) ∧
+      readAny (fileBytes c) 0 = .ok ld ∧
+      (if c.user then readUser (fileBytes c) 0 else readSystem (fileBytes c) 0) = .ok ld ∧
+      -- header
+      ld.header.version = versionOf c.user ∧ ld.header.createTime = c.time ∧
+      ld.header.description = c.desc.takeWhile (· ≠ 0) ∧
+      ((∀ b ∈ c.desc, b ≠ 0) → ld.header.description = c.desc) ∧
+      -- grammar section
+      ld.grammar = some g ∧ g.posList = c.pos.drop c.startPos ∧
+      g.numLeft = c.conn.numLeft.toNat ∧ g.numRight = c.conn.numRight.toNat ∧
+      (∀ v, Holds c.conn.matrix c.conn.numLeft.toNat c.conn.numRight.toNat v →
+        ∀ l r, l < c.conn.numLeft.toNat → r < c.conn.numRight.toNat → g.cost l r = .ok (v l r)) ∧
+      -- index
+      (ld.lexicon.bytes.drop ld.lexicon.trieOff).take (4 * ld.lexicon.trieSize) = c.trie ∧
+      (ld.lexicon.bytes.drop ld.lexicon.widTableOff).take ld.lexicon.widTableSize = widTableBytes c.entries ∧
+      -- lexicon section
+      ld.lexicon.size = c.entries.length ∧
+      ∀ i e, c.entries[i]? = some e →
+        ld.lexicon.getParams i = .ok (e.left, e.right, e.cost) ∧
+        ld.lexicon.parseWordInfo i = .ok
+          { surface := e.headwordS, headWordLength := utf8LenStr e.surface, posId := e.pos,
+            normalizedForm := stored e.normS e.headwordS, dicFormWordId := u32ToI (storeDf c.dfFix e).dicForm,
+            readingForm := stored e.readingS e.headwordS, aUnitSplit := e.splitsA, bUnitSplit := e.splitsB,
+            wordStructure := e.wordStructure, synonymGroupIds := e.synonyms } := by
+  obtain ⟨ld, g, hread, h⟩ := readAny_file c hok
+  refine ⟨ld, g, compile_ok c hok hval, hread, readKind_file c ld g _ hread h, ?_, ?_, ?_, ?_, h.grammar, h.posList,
+    h.numLeft, h.numRight, ?_, h.trie, h.widTable, by rw [h.size, storedEntries_length], ?_⟩
+  · rw [h.header]
+  · rw [h.header]
+  · rw [h.header]
+  · intro hz; rw [h.header]; exact takeWhile_no_zero c.desc hz
+  · intro v hv l r hl hr; exact cost_loaded c ld g h v hv l r hl hr
+  · intro i e hi
+    have hs := storedEntries_get c i e hi
+    obtain ⟨p1, p2, p3⟩ := storeDf_params c.dfFix e
+    obtain ⟨f1, f2, f3, f4, f5, f6, f7, f8, f9⟩ := storeDf_fields c.dfFix e
+    have hp := params_loaded c ld g h i _ hs (storedEntries_ok c hok.entries _ (List.mem_of_getElem? hs)).2
+    have hw := wordinfo_loaded c ld g h hok i _ hs
+    rw [p1, p2, p3] at hp
+    rw [f1, f2, f3, f4, f5, f6, f7, f8, f9] at hw
+    exact ⟨hp, hw⟩
+
+/-- Whole file + matrix TEXT: when the matrix bytes of the builder state are what the lines of the matrix text
+write onto the zero matrix (`write_elem` in file order), every cost the loaded grammar answers is the cost of the
+last line naming the pair, or 0. -/
+theorem dict_roundtrip_matrix (c : CompileInput) (hok : FileOk c)
+    (lines : List (Int × Int × Int)) (hlines : LinesOk c.conn.numLeft.toNat c.conn.numRight.toNat lines)
+    (hm : writeAll c.conn.numLeft.toNat lines (List.replicate (c.conn.numLeft.toNat * c.conn.numRight.toNat * 2) 0) = .ok c.conn.matrix) :
+    ∃ ld g, readAny (fileBytes c) 0 = .ok ld ∧ ld.grammar = some g ∧
+      ∀ l r, l < c.conn.numLeft.toNat → r < c.conn.numRight.toNat → g.cost l r = .ok (declared lines l r 0) := by
+  obtain ⟨ld, g, hread, h⟩ := readAny_file c hok
+  obtain ⟨m, hm', hh⟩ := writeAll_holds _ _ lines hlines _ _ (holds_zero _ _)
+  rw [hm] at hm'
+  cases hm'
+  exact ⟨ld, g, hread, h.grammar, fun l r hl hr => cost_loaded c ld g h _ hh l r hl hr⟩
+
+/-- Matrix TEXT clause (`ConnBuffer::read`): for a text whose first non-blank line is the header `nl nr` and whose
+further non-blank lines all parse to in-range triples `t`, `read_conn` succeeds with sizes `nl x nr` and a matrix in
+which every cell holds the cost of the last line naming it, or 0 (line loop = `write_elem` in file order onto the
+zero matrix).  With `dict_roundtrip_matrix` this carries the matrix text through the file to `cost(l, r)`. -/
+theorem conn_text_roundtrip (text h : Str) (rest : List Str) (nl nr : Nat) (t : List (Int × Int × Int))
+    (hbody : (readLines text).dropWhile isEmptyLine = h :: rest)
+    (hhdr : (splitnWhite 2 (trim h)).map parseI16 = [some (nl : Int), some (nr : Int)])
+    (hlines : lineTriples rest = some t) (hok : LinesOk nl nr t) :
+    ∃ m, readConn text = .ok { matrix := m, numLeft := nl, numRight := nr } ∧
+      writeAll nl t (List.replicate (nl * nr * 2) 0) = .ok m ∧ m.length = nl * nr * 2 ∧
+      ∀ l r, l < nl → r < nr → connCost m nl nr l r = .ok (declared t l r 0) := by
+  obtain ⟨m, hm, hlen, hcost⟩ : ∃ m, writeAll nl t (List.replicate (nl * nr * 2) 0) = .ok m ∧ m.length = nl * nr * 2 ∧
+      ∀ l r, l < nl → r < nr → connCost m nl nr l r = .ok (declared t l r 0) := by
+    obtain ⟨m, hm, hh⟩ := writeAll_holds nl nr t hok _ _ (holds_zero nl nr)
+    refine ⟨m, hm, hh.1, ?_⟩
+    intro l r hl hr
+    unfold connCost
+    have : ¬ (l ≥ nl ∨ r ≥ nr) := by omega
+    simp only [this, if_false, hh.2 l r hl hr]
+  refine ⟨m, ?_, hm, hlen, hcost⟩
+  unfold readConn
+  simp only [hbody, hhdr]
+  have hneg : ¬ ((nl : Int) < 0 ∨ (nr : Int) < 0) := by omega
+  simp only [hneg, if_false, Int.toNat_natCast]
+  rw [parseConnLines_eq nl rest t _ hlines, hm]
+
+/-- Whole file + dictionary forms: `get_word_info(i)` on the loaded file resolves the STORED dictionary-form id `d`
+inside the same lexicon and reports the headword of entry `d`.  For a system dictionary `d` is the declared id
+(`storeDf_sys`), so this is the clause "dictionary forms resolved to the intended entries"; for a user dictionary
+see `user_dicform_repaired` (variant `fix`) and `user_dicform_counterexample` (variant `cur`). -/
+theorem dict_roundtrip_dicform (c : CompileInput) (hok : FileOk c)
+    (i : Nat) (e : Entry) (hi : c.entries[i]? = some e) (target : Option Entry)
+    (hdf : ((storeDf c.dfFix e).dicForm = INVALID_WID ∧ target = none) ∨ ((storeDf c.dfFix e).dicForm = i ∧ target = none) ∨
+           ((storeDf c.dfFix e).dicForm < 2147483648 ∧ (storeDf c.dfFix e).dicForm ≠ i ∧
+              ∃ t, c.entries[(storeDf c.dfFix e).dicForm]? = some t ∧ target = some t)) :
+    ∃ ld wi, readAny (fileBytes c) 0 = .ok ld ∧ ld.lexicon.getWordInfo i = .ok wi ∧ wi.surface = e.headwordS ∧
+      wi.dictionaryFormA = (match target with
+        | none => e.headwordS
+        | some t => if t.headwordS = [] then e.headwordS else t.headwordS) := by
+  obtain ⟨ld, g, hread, h⟩ := readAny_file c hok
+  have hs := storedEntries_get c i e hi
+  have hdf' : ((storeDf c.dfFix e).dicForm = INVALID_WID ∧ target.map (storeDf c.dfFix) = none) ∨
+      ((storeDf c.dfFix e).dicForm = i ∧ target.map (storeDf c.dfFix) = none) ∨
+      ((storeDf c.dfFix e).dicForm < 2147483648 ∧ (storeDf c.dfFix e).dicForm ≠ i ∧
+        ∃ t, (storedEntries c)[(storeDf c.dfFix e).dicForm]? = some t ∧ target.map (storeDf c.dfFix) = some t) := by
+    rcases hdf with ⟨h1, h2⟩ | ⟨h1, h2⟩ | ⟨h1, h2, t, ht, h3⟩
+    · exact Or.inl ⟨h1, by rw [h2]; rfl⟩
+    · exact Or.inr (Or.inl ⟨h1, by rw [h2]; rfl⟩)
+    · exact Or.inr (Or.inr ⟨h1, h2, _, storedEntries_get c _ t ht, by rw [h3]; rfl⟩)
+  obtain ⟨wi, hwi, h1, h2⟩ := getWordInfo_lexAt (preBytes c) (storedEntries c)
+    (fun e he => (storedEntries_ok c hok.entries e he).1) hok.size i _ hs _ hdf'
+  refine ⟨ld, wi, hread, by rw [getWordInfo_loaded c ld g h i]; exact hwi, by rw [h1, (storeDf_fields _ e).1], ?_⟩
+  cases target with
+  | none => rw [h2]; exact (storeDf_fields _ e).1
+  | some t => rw [h2]; simp only [Option.map_some, (storeDf_fields _ e).1, (storeDf_fields _ t).1]
+
+/-- D8 first half REPAIRED (variant `fix` = `fix_D8.patch`): in a user dictionary compiled by the repaired writer,
+a row that names the own entry `k` as `Uk` is loaded with the headword of entry `k` as its dictionary form
+(for the code as it stands the same row panics: `user_dicform_counterexample`).  A plain `N` in a user dictionary
+keeps meaning "whatever own entry N is" to the reader and "system word N" to the validator (second half of D8,
+`user_dicform_wrong_counterexample`, unchanged: what the column should mean there is the maintainers' call). -/
+theorem user_dicform_repaired (c : CompileInput) (hok : FileOk c) (hfix : c.dfFix = true)
+    (i k : Nat) (e t : Entry) (hi : c.entries[i]? = some e) (hk : k < 268435456) (hne : k ≠ i)
+    (hdf : e.dicForm = widNew 1 k) (ht : c.entries[k]? = some t) (hnonempty : t.headwordS ≠ []) :
+    ∃ ld wi, readAny (fileBytes c) 0 = .ok ld ∧ ld.lexicon.getWordInfo i = .ok wi ∧ wi.surface = e.headwordS ∧
+      wi.dictionaryFormA = t.headwordS := by
+  have hd : (storeDf c.dfFix e).dicForm = k := by rw [hfix]; exact storeDf_user e k hk hdf
+  obtain ⟨ld, wi, h1, h2, h3, h4⟩ := dict_roundtrip_dicform c hok i e hi (some t)
+    (Or.inr (Or.inr ⟨by rw [hd]; omega, by rw [hd]; exact hne, t, by rw [hd]; exact ht, rfl⟩))
+  exact ⟨ld, wi, h1, h2, h3, by rw [h4]; simp [hnonempty]⟩
 
 /-- Clause "dictionary forms resolved to the intended entries", SYSTEM dictionaries: `get_word_info(i)`
 reports as dictionary form the headword of the entry the row names (`*` or a self reference: its own
@@ -184,6 +384,14 @@ insertion order, matrix, timestamp, description, trie blob) and nothing else.  T
 to insertion-ordered containers is what the byte-exact correspondence run checks. -/
 theorem compile_deterministic (a b : CompileInput) (h : a = b) : compile a = compile b := by
   rw [h]
+
+/-- The same for the whole pipeline `read_conn` + `read_lexicon` + `resolve` + `compile`: the bytes are a function
+of (creation time, description, matrix text, CSV records in order, trie blob) and of the code variant `v`; the
+creation time is a parameter (`set_compile_time`), never read from a clock. -/
+theorem build_deterministic (v : Bool) (t1 t2 : Nat) (d1 d2 : Bytes) (m1 m2 : Str) (r1 r2 : List (Array Str)) (tr1 tr2 : Bytes)
+    (h : t1 = t2 ∧ d1 = d2 ∧ m1 = m2 ∧ r1 = r2 ∧ tr1 = tr2) :
+    buildSystem v t1 d1 m1 r1 tr1 = buildSystem v t2 d2 m2 r2 tr2 := by
+  obtain ⟨rfl, rfl, rfl, rfl, rfl⟩ := h; rfl
 
 /-- Clause "the result does not depend on the memory alignment of the loaded bytes": the loader reads
 the bytes of the dictionary only, wherever they start in the enclosing buffer. -/
@@ -217,5 +425,54 @@ example : emptyReadingEntry.WF :=
     key := by decide, pos := by decide, df := by decide,
     a := ⟨by decide, fun x hx => by simp [emptyReadingEntry] at hx⟩, b := ⟨by decide, fun x hx => by simp [emptyReadingEntry] at hx⟩,
     ws := ⟨by decide, fun x hx => by simp [emptyReadingEntry] at hx⟩, syn := ⟨by decide, fun x hx => by simp [emptyReadingEntry] at hx⟩ }
+
+/-- a small builder state within the limits: two entries (the second names the first as its dictionary form), one
+POS row with an empty and an astral string, a 2 x 1 matrix holding 5 and -5 -/
+def sampleInput : CompileInput :=
+  { user := false, time := 1600000000, desc := [118], pos := [[[97], [98], [], [42], [42], [0x20BB7]]], startPos := 0,
+    conn := { matrix := [5, 0, 251, 255], numLeft := 2, numRight := 1 },
+    entries := [plainEntry [12354] INVALID_WID, plainEntry [12354, 12356] 0],
+    maxLeft := 2, maxRight := 1, numSystem := none, trie := [1, 2, 3, 4] }
+
+set_option maxRecDepth 100000 in
+example : FileOk sampleInput ∧
+    validateEntries sampleInput.maxLeft sampleInput.maxRight sampleInput.numSystem sampleInput.entries = true := by decide
+set_option maxRecDepth 100000 in
+example : FileOk { sampleInput with user := true, numSystem := some 1, startPos := 1, conn := {}, entries := [plainEntry [12354] 0] } := by decide
+set_option maxRecDepth 100000 in
+example : LinesOk 2 1 [(0, 0, 5), (1, 0, -5)] ∧
+    writeAll sampleInput.conn.numLeft.toNat [(0, 0, 5), (1, 0, -5)]
+      (List.replicate (sampleInput.conn.numLeft.toNat * sampleInput.conn.numRight.toNat * 2) 0) = .ok sampleInput.conn.matrix := by
+  refine ⟨?_, by decide⟩
+  intro x hx; simp at hx; rcases hx with rfl | rfl <;> decide
+example : ∃ t, sampleInput.entries[1]? = some (plainEntry [12354, 12356] 0) ∧ (plainEntry [12354, 12356] 0).dicForm < 2147483648 ∧
+    (plainEntry [12354, 12356] 0).dicForm ≠ 1 ∧ sampleInput.entries[(plainEntry [12354, 12356] 0).dicForm]? = some t :=
+  ⟨_, rfl, by decide, by decide, rfl⟩
+/-- a user dictionary compiled by the repaired writer: row 0 (`あ`) names row 1 (`い`) as `U1` -/
+def repairedUserInput : CompileInput :=
+  { user := true, dfFix := true, time := 1600000000, desc := [117], pos := [[[97], [98], [], [42], [42], [0x20BB7]]], startPos := 1,
+    conn := { matrix := [], numLeft := 0, numRight := 0 },
+    entries := [plainEntry [12354] (widNew 1 1), plainEntry [12356] INVALID_WID],
+    maxLeft := 2, maxRight := 1, numSystem := some 5, trie := [1, 2, 3, 4] }
+set_option maxRecDepth 100000 in
+example : FileOk repairedUserInput ∧ repairedUserInput.dfFix = true ∧
+    validateEntries repairedUserInput.maxLeft repairedUserInput.maxRight repairedUserInput.numSystem repairedUserInput.entries = true ∧
+    repairedUserInput.entries[0]? = some (plainEntry [12354] (widNew 1 1)) ∧ (plainEntry [12354] (widNew 1 1)).dicForm = widNew 1 1 ∧
+    repairedUserInput.entries[1]? = some (plainEntry [12356] INVALID_WID) ∧ (plainEntry [12356] INVALID_WID).headwordS ≠ [] := by decide
+set_option maxRecDepth 100000 in
+/-- the same two rows, stored by the writer as it stands and by the repaired one -/
+example : (lexOf ([plainEntry [12354] (widNew 1 1), plainEntry [12356] INVALID_WID].map (storeDf false))).getWordInfo 0
+      = .panic "slice:word_id_to_offset" ∧
+    ((lexOf ([plainEntry [12354] (widNew 1 1), plainEntry [12356] INVALID_WID].map (storeDf true))).getWordInfo 0).bind
+      (fun wi => .ok wi.dictionaryFormA) = .ok [12356] := by decide
+example : IsVersion SYSTEM_DICT_VERSION_2 ∧ IsVersion USER_DICT_VERSION_3 ∧ versionOf false = SYSTEM_DICT_VERSION_2 :=
+  ⟨Or.inr (Or.inl rfl), Or.inr (Or.inr (Or.inr (Or.inr rfl))), rfl⟩
+example : PosOk ([[[97], [98], [], [42], [42], [0x20BB7]]] : List (List Str)) := by decide
+set_option maxRecDepth 100000 in
+/-- the matrix text `2 1\n0 0 5\n\n1 0 -5\n` -/
+example : (readLines (lit "2 1\n0 0 5\n\n1 0 -5\n")).dropWhile isEmptyLine = lit "2 1\n" :: [lit "0 0 5\n", lit "\n", lit "1 0 -5\n"] ∧
+    (splitnWhite 2 (trim (lit "2 1\n"))).map parseI16 = [some ((2 : Nat) : Int), some ((1 : Nat) : Int)] ∧
+    lineTriples [lit "0 0 5\n", lit "\n", lit "1 0 -5\n"] = some [(0, 0, 5), (1, 0, -5)] := by decide
+example : Holds (List.replicate (2 * 3 * 2) 0) 2 3 (fun _ _ => 0) := holds_zero 2 3
 
 end C05
